@@ -1,4 +1,4 @@
-\* exhaustive case export + property check (quick): every admissible history with exactly 2 operations ([op,op] or [op][op]), 2 names, 2 label shapes, 2 groups, 2 hooks, values {0.5, 1.0}, 3 invalid ops; no VIEW, every history is one state
+\* exhaustive case export + property check (quick): every admissible history with exactly 2 operations ([op,op] or [op][op]), 2 names, 2 label shapes, 2 groups, 2 hooks (first batch from h1: hooks are interchangeable), values {0.5, 1.0}, 3 invalid ops; no VIEW, every history is one state
 SPECIFICATION Spec
 CONSTANTS
   Names = {"m1", "m2"}
@@ -9,6 +9,7 @@ CONSTANTS
   InvalidSel <- InvFew
   MaxBatches = 2
   MaxOps = 2
+  SymHooks = TRUE
   MinOps = 1
   MaxTotalOps = 2
   MaxInvalid = 2
